@@ -88,4 +88,22 @@ def unescapeString : Str → Option Str
     else if 65 ≤ c ∧ c ≤ 90 then none
     else (unescapeString rest).map (fun t => c :: t)
 
+/-- the bytes Windows (and POSIX shells) give a meaning to, which the code forbids in file names
+on every OS: control characters, `" * / : < > ? \ |`, and `' ; ` DEL` -/
+def winForbidden (b : Nat) : Bool :=
+  decide (b < 32) || b == 34 || b == 39 || b == 42 || b == 47 || b == 58 || b == 59 || b == 60 ||
+  b == 62 || b == 63 || b == 92 || b == 96 || b == 124 || b == 127
+
+/-- the part of an element before its first dot (what Windows matches against device names) -/
+def shortName (e : Str) : Str := e.takeWhile (· != 46)
+
+/-- What the code's Windows rules guarantee for one path element on every OS: not empty, not
+made of dots only (`.`, `..`, `...`), no trailing dot (Windows strips it), no forbidden byte
+(so no separator of any kind, no drive letter or alternate data stream), and the part before the
+first dot is not a reserved device name in any case (CON, PRN, AUX, NUL, COM1-9, LPT1-9).
+NOT guaranteed (the code allows them): trailing or leading spaces. -/
+def WinSafeElem (U : Uni) (e : Str) : Prop :=
+  e ≠ [] ∧ ¬ (∀ b ∈ e, b = 46) ∧ e.getLast? ≠ some 46 ∧ (∀ b ∈ e, winForbidden b = false) ∧
+  ∀ bad ∈ badWindowsNames, equalFold U bad (shortName e) = false
+
 end CueVerif.Modzip
